@@ -434,6 +434,10 @@ fn collect(net: &mut Net, block_of: &BTreeMap<Hash, Vec<u8>>) {
     }
 }
 
+/// when set, the serving node B has itself followed A's branch before it adopted its own chain
+/// (it holds A's blocks, off its longest chain)
+pub static B_SAW_A: std::sync::atomic::AtomicBool = std::sync::atomic::AtomicBool::new(false);
+
 pub fn start(f: &Forest, ca: (usize, usize), cb: (usize, usize), block_of: &BTreeMap<Hash, Vec<u8>>) -> Result<Net, String> {
     let mut cfg_a = cfg();
     cfg_a.peers = vec![PeerConfig { host: "b".into(), port: 1, protocol: "http".into(), synctype: "full".into() }];
@@ -446,7 +450,13 @@ pub fn start(f: &Forest, ca: (usize, usize), cb: (usize, usize), block_of: &BTre
         return Err("init".into());
     }
     preload(&mut a, &f.chain(ca.0, ca.1))?;
+    if B_SAW_A.load(std::sync::atomic::Ordering::SeqCst) && ca.1 > 0 {
+        preload(&mut b, &f.chain(ca.0, ca.1))?;
+    }
     preload(&mut b, &f.chain(cb.0, cb.1))?;
+    if b.tip().1 != decode_block(f.chain(cb.0, cb.1).last().unwrap()).hash {
+        return Err("B is not on its own chain after preloading".into());
+    }
     a.tick_routing(2_000);
     if !a.io.take_outbox().into_iter().any(|o| matches!(o, Out::Connect { .. })) {
         return Err("A did not dial".into());
@@ -626,7 +636,7 @@ fn run_fifo(f: &Forest, ca: (usize, usize), cb: (usize, usize), block_of: &BTree
 
 fn explore(f: &Forest, ca: (usize, usize), cb: (usize, usize), block_of: &BTreeMap<Hash, Vec<u8>>, rep: &mut Report, cap: usize) {
     let case = json!({"a": {"fork_after": ca.0, "branch_len": ca.1}, "b": {"fork_after": cb.0, "branch_len": cb.1}});
-    let mut seen: BTreeSet<Hash> = BTreeSet::new();
+    let mut seen: crate::audit::MergeAudit<Vec<Ev>> = crate::audit::MergeAudit::new();
     let mut frontier: Vec<Vec<Ev>> = vec![vec![]];
     let mut quiescent = 0u64;
     while !frontier.is_empty() {
@@ -655,7 +665,7 @@ fn explore(f: &Forest, ca: (usize, usize), cb: (usize, usize), block_of: &BTreeM
             quiescent += r.evaluations;
             rep.merge(r);
             for (h, d) in outs {
-                if seen.insert(d) {
+                if seen.see(d, &h) {
                     next.push(h);
                 }
             }
@@ -669,8 +679,24 @@ fn explore(f: &Forest, ca: (usize, usize), cb: (usize, usize), block_of: &BTreeM
     }
     rep.states += seen.len() as u64;
     rep.outcome_n("schedules:quiescent-states", quiescent);
-    for d in seen.iter() {
+    for d in seen.rep_of.keys() {
         rep.distinct.insert(hex::encode(&d[0..8]));
+    }
+    // canonicalisation audit: merged histories agree with their representative one step on
+    {
+        let quiet = Report::new("C15", Tier { thorough: false, seed: 0 }, "model_checking");
+        seen.audit(40, &format!("sync-bfs-a{}-{}-b{}-{}", ca.0, ca.1, cb.0, cb.1), |h: &Vec<Ev>| {
+            let Some(net) = replay(f, ca, cb, block_of, h, &mut quiet.child(), &case) else { return vec![("replay-failed".to_string(), None)] };
+            let evs = enabled(&net, 2);
+            drop(net);
+            evs.into_iter()
+                .map(|ev| {
+                    let mut hh = h.clone();
+                    hh.push(ev);
+                    (format!("{:?}", ev), replay(f, ca, cb, block_of, &hh, &mut quiet.child(), &case).map(|n2| digest(&n2)))
+                })
+                .collect()
+        }, rep);
     }
 }
 
@@ -755,6 +781,13 @@ pub fn main(tier: Tier, replay_file: Option<String>) -> i32 {
     for (ca, cb) in worlds.iter() {
         explore(&f, *ca, *cb, &block_of, &mut rep, cap);
     }
+    // the same worlds with a serving node that followed A's branch before its own chain won
+    B_SAW_A.store(true, std::sync::atomic::Ordering::SeqCst);
+    for (ca, cb) in worlds.iter().filter(|(ca, _)| ca.1 > 0).take(if tier.thorough { usize::MAX } else { 2 }) {
+        explore(&f, *ca, *cb, &block_of, &mut rep, cap);
+        rep.outcome("schedules:world-with-a-server-that-saw-the-requesters-branch");
+    }
+    B_SAW_A.store(false, std::sync::atomic::Ordering::SeqCst);
     rep.outcome_n("schedules:worlds", worlds.len() as u64);
     // part 2b: default order, long chains
     let mut fifo = vec![];
@@ -788,7 +821,19 @@ pub fn main(tier: Tier, replay_file: Option<String>) -> i32 {
     for r in res {
         rep.merge(r);
     }
-    rep.outcome_n("fifo:worlds", fifo.len() as u64);
+    B_SAW_A.store(true, std::sync::atomic::Ordering::SeqCst);
+    let forked: Vec<_> = fifo.iter().filter(|(ca, _)| ca.1 > 0).cloned().collect();
+    let res = par_map(&forked, workers(), |_, (ca, cb)| {
+        let mut r = rep.child();
+        run_fifo(&f, *ca, *cb, &block_of, &mut r);
+        r.outcome("fifo:world-with-a-server-that-saw-the-requesters-branch");
+        r
+    });
+    B_SAW_A.store(false, std::sync::atomic::Ordering::SeqCst);
+    for r in res {
+        rep.merge(r);
+    }
+    rep.outcome_n("fifo:worlds", (fifo.len() + forked.len()) as u64);
     rep.sample(json!({"a": {"fork_after": 2, "branch_len": 1}, "b": {"fork_after": 5, "branch_len": 0}}));
     rep.required_outcomes = vec!["grid:chains".into(), "converged/fifo".into(), "converged/all-orders".into()];
     rep.finish()
